@@ -102,7 +102,7 @@ func (t *tb) inline(c *ssa.Call, idx int, asSlice bool) (string, aff, bool) {
 		if n > 0 && s != out {
 			return "", aff{}, false
 		}
-		if strings.Contains(s, "cycle:") {
+		if strings.Contains(s, child.cycleMark()) {
 			return "", aff{}, false // the callee loops: its result is not a closed term
 		}
 		out, outA = s, a
@@ -230,7 +230,7 @@ func (t *tb) term(v ssa.Value) aff {
 	if r, ok := t.memo[v]; ok {
 		return r
 	}
-	t.memo[v] = affAtom("cycle:" + v.Name())
+	t.memo[v] = affAtom(t.cycleMark() + v.Name())
 	r := t.term1(v)
 	t.memo[v] = r
 	return r
@@ -886,4 +886,14 @@ func (t *tb) leqZero(c *ssa.BinOp, negate bool) (string, bool) {
 		return y.add(x, -1).String(), true
 	}
 	return "", false
+}
+
+
+// cycleMark is the prefix of the placeholder atom for a value that depends on itself (a loop the idioms do not cover);
+// it carries the inlining depth so that a callee's own loops can be told from loop terms passed in as arguments.
+func (t *tb) cycleMark() string {
+	if t.depth == 0 {
+		return "cycle:"
+	}
+	return fmt.Sprintf("cycle%d:", t.depth)
 }
